@@ -41,6 +41,13 @@ def run(res, args):
         res.count("reader options " + opt)
         cases.append("filter %s %d %d %d %s %s" % (gen.hx(s), rng.getrandbits(1), rng.getrandbits(1), rng.choice([0, 0, 100, 1000]),
                                                    rng.choice(["1", "5", "64", "4096", "2.1.9", "100000"]), opt))
+    # an output writer that is stuck in Write for 2.5 s per call (a full pipe, a slow disk): every schedule of the
+    # writer goroutines includes the ones where a writer is away from its channel for seconds; nothing may be omitted
+    for k in range(1 if res.tier == "quick" else 4):
+        fr = [gen.rand_frame(rng, small=True) for _ in range(3)]
+        s = fr[0] + b"$GP,1*00\r\n" + fr[1] + fr[2] + b"\n"
+        ins.append((s, "writer away for 2.5 s per call"))
+        cases.append("filter %s %d %d 2500000 4096 -" % (gen.hx(s), k % 2, (k >> 1) % 2))
     scases = ["stream %d debug %s" % (framing.T0, gen.hx(s)) for s, _ in ins]
     simpl, smodel = framing.run_both(res, "stream", scases)
     obs, e = common.run_app_test(fbin, cases, "C10")
